@@ -44,7 +44,7 @@ var connectPath = fnIn("Client.Client", "newRPCClient", "NewRPCClient", "newGRPC
 
 func init() {
 	register(&propDef{ID: "C01",
-		Rules: []func(*Ctx){ruleStdoutLines, ruleErrL3, ruleTranslate,
+		Rules: []func(*Ctx){ruleTranslateDirections, ruleStdoutLines, ruleErrL3, ruleTranslate,
 			scoped(ruleErrL1Scoped, startPath), scoped(ruleErrL2Scoped, startPath),
 			ruleIdx, ruleNilGuard, ruleGate, ruleHandshakeTable,
 			scoped(ruleBoundScoped, fnIn("Client.Start")), ruleOrderStart,
@@ -55,7 +55,7 @@ func init() {
 		Assume:      []string{"net.ResolveTCPAddr/ResolveUnixAddr return a non-nil address iff the error is nil", "strings.Split with a non-empty separator returns at least one element"},
 	})
 	register(&propDef{ID: "C02",
-		Rules: []func(*Ctx){ruleVersionNegotiation, ruleVersionListParse, ruleEnvVersionsOnly, onlyObligations(ruleEnv, func(o *Obligation) bool {
+		Rules: []func(*Ctx){ruleServedSet, ruleLegacyFold, ruleVersionNegotiation, ruleVersionListParse, ruleEnvVersionsOnly, onlyObligations(ruleEnv, func(o *Obligation) bool {
 			return o.Rule == "R-ORDER/O5" || (o.Rule == "R-TABLE/env" && strings.Contains(o.Construct, "PLUGIN_PROTOCOL_VERSIONS"))
 		})},
 		Technique:   "typestate (sorted-descending) and loop-shape analysis of the negotiation function; map-key/value pairing by object identity; table agreement offered=accepted",
@@ -64,7 +64,7 @@ func init() {
 		Assume:      []string{"sort.Sort(sort.Reverse(sort.IntSlice(x))) leaves x in descending order"},
 	})
 	register(&propDef{ID: "C03",
-		Rules: []func(*Ctx){ruleOrderO4, ruleErrL3, ruleClientCache, ruleStreamClose,
+		Rules: []func(*Ctx){ruleIdx, ruleWindows, ruleOrderO4, ruleErrL3, ruleClientCache, ruleStreamClose,
 			ruleExit, ruleCtx, ruleBound, ruleWG,
 			scoped(ruleErrL1Scoped, connectPath), scoped(ruleErrL2Scoped, connectPath),
 		},
@@ -74,7 +74,7 @@ func init() {
 		Assume:      []string{"yamux with default config (keep-alive on) fails a session whose peer is gone", "grpc-go fails RPCs on a closed connection"},
 	})
 	register(&propDef{ID: "C04",
-		Rules: []func(*Ctx){ruleRunnerKill, ruleKillCtx, ruleOrderO4,
+		Rules: []func(*Ctx){ruleWindows, ruleRunnerKill, ruleKillCtx, ruleOrderO4,
 			ruleKill, ruleBoundRPC, scoped(ruleBoundScoped, fnIn("Client.Kill", "CleanupClients")), ruleSibClose, ruleWG,
 			guardOn("Client.", "managedClients", "RPCServer.DoneCh", "GRPCServer.broker"), ruleClose1,
 		},
@@ -93,7 +93,7 @@ func init() {
 		Assume:      []string{"deferred functions run on every return and on panic"},
 	})
 	register(&propDef{ID: "C06",
-		Rules: []func(*Ctx){ruleWireAgreement, ruleDeadline, ruleGetOrCreate, ruleExpiry, ruleRunNonBlocking, ruleFreshMsg,
+		Rules: []func(*Ctx){ruleWindows, ruleSlotCapacityOne, ruleWireAgreement, ruleDeadline, ruleGetOrCreate, ruleExpiry, ruleRunNonBlocking, ruleFreshMsg,
 			ruleIDMux, ruleSlot, guardOn("MuxBroker."), scoped(ruleBoundScoped, fnIn("MuxBroker.Accept", "MuxBroker.timeoutWait", "MuxBroker.Run", "MuxBroker.Dial")), ruleAtomicIDs,
 		},
 		Technique:   "origin (def-use) resolution of the brokered id on both ends, channel-capacity check, lockset on the pending map, timer-arm classification",
@@ -102,7 +102,7 @@ func init() {
 		Assume:      []string{"yamux delivers each stream's bytes in order to its peer only"},
 	})
 	register(&propDef{ID: "C07",
-		Rules: []func(*Ctx){ruleIDRoles, ruleDeadline, ruleGetOrCreate, ruleExpiry, ruleRunNonBlocking, ruleFreshMsg, ruleTranslate, ruleCtorStoresTLS,
+		Rules: []func(*Ctx){ruleNoAppendToParam, ruleWindows, ruleTranslateDirections, ruleSlotCapacityOne, ruleIDRoles, ruleDeadline, ruleGetOrCreate, ruleExpiry, ruleRunNonBlocking, ruleFreshMsg, ruleTranslate, ruleCtorStoresTLS,
 			ruleIDGRPC, ruleSlot, guardOn("GRPCBroker."), scoped(ruleErrL1Scoped, fnIn("GRPCBroker.DialWithOptions", "GRPCBroker.Accept", "GRPCBroker.AcceptAndServe")),
 			scoped(ruleErrL2Scoped, fnIn("GRPCBroker.DialWithOptions", "GRPCBroker.Accept")), scoped(ruleBoundScoped, fnIn("GRPCBroker.DialWithOptions", "GRPCBroker.timeoutWait", "GRPCBroker.Run")),
 			ruleTLSUse, ruleAtomicIDs,
@@ -120,7 +120,7 @@ func init() {
 		NotDecided:  "the four-goroutine hand-off under all schedules; behaviour when brokered connections are not established sequentially (excluded by the API contract).",
 	})
 	register(&propDef{ID: "C09",
-		Rules: []func(*Ctx){ruleLockPair, ruleLockOrder, ruleRunNonBlocking, ruleStreamClose,
+		Rules: []func(*Ctx){ruleWindows, ruleSlotCapacityOne, ruleBrokerCloseCloses, ruleIDRoles, ruleLockPair, ruleLockOrder, ruleRunNonBlocking, ruleStreamClose,
 			ruleLockBlock, scoped(ruleBoundScoped, fnIn("MuxBroker.Accept", "MuxBroker.Run", "MuxBroker.timeoutWait", "MuxBroker.Dial", "GRPCBroker.DialWithOptions", "GRPCBroker.knock", "GRPCBroker.timeoutWait", "GRPCBroker.Run", "GRPCBroker.listenForKnocks", "GRPCBroker.Accept", "grpcmux.GRPCServerMuxer.session")),
 			ruleRes, ruleExpiry, ruleClose1,
 		},
@@ -129,14 +129,14 @@ func init() {
 		NotDecided:  "the expiry-instant race as a timing fact (its harmful effect, a blocking receive under the lock, is what R-LOCKBLOCK excludes); goroutine termination after Close.",
 	})
 	register(&propDef{ID: "C10",
-		Rules:       []func(*Ctx){ruleStdioSequential, ruleStdoutLines, ruleStderrNewline, rulePanicFlag, ruleAssert, ruleDrain, ruleOrderO4, ruleLogLevels, onlyObligations(ruleWG, func(o *Obligation) bool { return strings.Contains(o.Construct, "pipe") })},
+		Rules:       []func(*Ctx){ruleJSONKeys, ruleDrainSink, ruleStdioSequential, ruleStdoutLines, ruleStderrNewline, rulePanicFlag, ruleAssert, ruleDrain, ruleOrderO4, ruleLogLevels, onlyObligations(ruleWG, func(o *Obligation) bool { return strings.Contains(o.Construct, "pipe") })},
 		Technique:   "call-graph reachability from the reader goroutines + type-assertion form check; loop-exit analysis against a reader effect table; case-to-method table agreement",
 		Explanation: "Decides: no single-result type assertion is reachable from the stdout/stderr reader goroutines (R-ASSERT); the stderr loop ends only on a non-nil read error and every successfully read chunk passes config.Stderr.Write(line) before the next read; the stdout scanner's early stop (ErrTooLong) is followed by a drain of the same reader (R-DRAIN); the drain goroutine for the line channel is registered right after its producer (O4); each [LEVEL] prefix and hclog level is logged with the method of the same name, panic: with Error, default Debug or Error inside a panic trace (R-TABLE/levels). Every scanned stdout line is handed on (R-DRAIN/lines); the goroutines reading the two pipes are counted in the WaitGroup the reaper waits for before runner.Wait (R-WG); chunks are forwarded by the loop that received them (R-ORDER/stdio).",
 		NotDecided:  "newline/continuation reconstruction for every buffer size (value-level); hclog's own formatting.",
 		Assume:      []string{"bufio.Reader.ReadLine returns a non-nil error only at EOF or read failure", "bufio.Scanner stops with ErrTooLong at a 64 KiB token"},
 	})
 	register(&propDef{ID: "C11",
-		Rules:       []func(*Ctx){ruleStdioSequential, ruleDeadline, ruleCtx, ruleStdioWiring, ruleFresh, ruleCopyChan},
+		Rules:       []func(*Ctx){ruleDrainSink, ruleDefaults, ruleStdioSequential, ruleDeadline, ruleCtx, ruleStdioWiring, ruleFresh, ruleCopyChan},
 		Technique:   "label propagation (stdout/stderr) over resolved fields, parameters and constants; allocation-site-in-loop check; statement ordering in the chunk loop",
 		Explanation: "Decides the wiring and aliasing conditions: every edge of the stdio path joins equal labels (os.Pipe pair -> os.Stdout/os.Stderr and the server's Stdout/Stderr fields -> stdoutCh/stderrCh -> STDOUT/STDERR tags -> host stdout/stderr writers <- SyncStdout/SyncStderr; net/rpc stream 0/1 on both ends) (R-TABLE/stdio); the chunk sent on the channel is backed by an array declared inside the loop body, so a later read cannot overwrite bytes in flight (R-FRESH); data[:n] is sent before the error of the same read is acted on and the hand-off is an unconditional blocking send (O10). Every loop of the stdio path forwards the chunk it received itself (no goroutine per chunk: R-ORDER/stdio); no absolute deadline stays armed on the stdio streams (R-DEADLINE).",
 		NotDecided:  "byte-exactness and ordering themselves (gRPC stream, yamux and io.Copy contracts); data written before the host attaches.",
@@ -156,44 +156,44 @@ func init() {
 		Assume:      []string{"subtle.ConstantTimeCompare returns 1 iff the slices have equal length and contents"},
 	})
 	register(&propDef{ID: "C14",
-		Rules:       []func(*Ctx){ruleMuxOnlyGRPC, ruleCtorStoresTLS, ruleGateExcl, ruleGateProtoMux, ruleSibDispense, ruleSibSwitch, ruleOrderStart, ruleTLSUse},
+		Rules:       []func(*Ctx){ruleTranslateDirections, ruleDialOptions, ruleHostEnvFilter, ruleMuxOnlyGRPC, ruleCtorStoresTLS, ruleGateExcl, ruleGateProtoMux, ruleSibDispense, ruleSibSwitch, ruleOrderStart, ruleTLSUse},
 		Technique:   "dominance queries for configuration gates, sibling cross-check of Dispense implementations and protocol switches, TLS option provenance",
 		Explanation: "Decides: the exclusivity checks (exactly one of Cmd/Reattach/RunnerFunc; SecureConfig or multiplexing with Reattach) return errors before any launch site (G-excl); the announced protocol must be in AllowedProtocols and the multiplexing field must be present and true when requested, failing with an error that is or wraps ErrGRPCBrokerMuxNotSupported (G-proto, G-mux); all three Dispense implementations return a non-nil error on a map miss; Client() and Serve switch over both protocols with an error/panic default; NewClient defaults AllowedProtocols to exactly net/rpc (R-SIB); refused configurations terminate the plugin (O3); plaintext is used only when no TLS config exists (R-TLS/use). The yamux server muxer wraps the listener only on the gRPC arm of the protocol switch.",
 		NotDecided:  "the end-to-end behaviour of each cell of the configuration matrix.",
 	})
 	register(&propDef{ID: "C15",
-		Rules:       []func(*Ctx){ruleRunnerKill, ruleReattach, ruleSentinelReattach, ruleExit, ruleGateExcl},
+		Rules:       []func(*Ctx){onlyObligations(ruleSibClose, func(o *Obligation) bool { return strings.HasPrefix(o.Construct, "Quit ") }), ruleRunnerKill, ruleReattach, ruleSentinelReattach, ruleExit, ruleGateExcl},
 		Technique:   "dominance (runner recorded only outside test mode), field-provenance of address/protocol, sentinel-return check, exit bookkeeping",
 		Explanation: "Decides: in reattach the store to Client.runner is dominated by the false edge of Reattach.Test; address and protocol come from the ReattachConfig with net/rpc as default; Client.ReattachConfig() and the test-mode literal in Serve fill Protocol, Addr, Pid, Test from the negotiated protocol, the listener address, the pid and true; both failure paths of the reattach probe return ErrProcessNotFound; the reattach goroutine cancels the context and marks exit. Both runner Kill implementations call os.Process.Kill on every path with a process (R-SIB/runnerkill).",
 		NotDecided:  "that the address reaches the same plugin instance (a run-time value).",
 	})
 	register(&propDef{ID: "C16",
-		Rules:       []func(*Ctx){ruleServeServes, ruleCookie, ruleOrderServe, ruleHandshakeTable, ruleStdout},
+		Rules:       []func(*Ctx){ruleServeMuxExit, ruleServeServes, ruleCookie, ruleOrderServe, ruleHandshakeTable, ruleStdout},
 		Technique:   "dominance of listener/print sites by the cookie gate, statement ordering in Serve, format-string/argument table extraction, who-may-write audit of os.Stdout",
 		Explanation: "Decides: the empty key/value test and the exact != comparison of os.Getenv(key) with the value set exit code 1 and return before any listen or print site, and the deferred os.Exit reads that variable (G-cookie); the listener and server.Init precede the handshake print, print and Sync precede the os.Stdout swap (O6); the line is Sprintf(\"%d|%d|%s|%s|%s|%s\") of core version, negotiated version, listener network/address, protocol and certificate, with a seventh field only under os.Getenv(PLUGIN_MULTIPLEX_GRPC) != \"\" (R-TABLE/handshake); the only write to the real stdout in scope is that print (R-STDOUT). Both ServerProtocol.Serve implementations reach the accept loop on the announced listener on every path (nothing fallible between the print and accepting).",
 		NotDecided:  "the exit status as observed by the OS; that a listening socket queues connections before Accept (kernel contract).",
 	})
 	register(&propDef{ID: "C17",
-		Rules:       []func(*Ctx){ruleEnv},
+		Rules:       []func(*Ctx){ruleLegacyFold, ruleDefaults, ruleHostEnvFilter, ruleEnv},
 		Technique:   "extraction of every element reaching exec.Cmd.Env with its dominating configuration conditions, compared with the reference table and with every os.Getenv reachable from Serve",
 		Explanation: "Decides the whole structural content of the property: each control variable is appended under exactly its configuration condition, the host environment exactly when SkipHostEnv is false and before every control variable, stdin unconditionally, the offered versions are the keys of the map the acceptance check ranges; every variable the server reads is one the client writes; conditional 'exactly when' variables are filtered out of the inherited environment. A control variable's conditions beyond the gates common to all of them are exactly its feature condition.",
 		NotDecided:  "exec.Cmd's duplicate-key resolution (later entries win).",
 		Assume:      []string{"exec.Cmd de-duplicates Env keeping the last value"},
 	})
 	register(&propDef{ID: "C18",
-		Rules:       []func(*Ctx){onlyObligations(ruleSibClose, func(o *Obligation) bool { return strings.HasPrefix(o.Construct, "closes the") }), ruleWrapClose, ruleRes, ruleSocketDir, ruleStopClosesBroker, ruleWG, ruleBound},
+		Rules:       []func(*Ctx){ruleIDRoles, ruleBrokerCloseCloses, onlyObligations(ruleSibClose, func(o *Obligation) bool { return strings.HasPrefix(o.Construct, "closes the") }), ruleWrapClose, ruleRes, ruleSocketDir, ruleStopClosesBroker, ruleWG, ruleBound},
 		Technique:   "wrapper-closes-wrapped audit of every net.Listener implementation, resource typestate (listener closed on every return), Kill path enumeration",
 		Explanation: "Decides: every module type that implements net.Listener and is built from a listener retains it and closes it on every path through Close; rmListener also runs its extra close function and the file listener removes the path it listens on (R-WRAPCLOSE); Serve and AcceptAndServe close their listener on every return after creation (R-RES, O7); Kill removes the socket directory on every non-early exit (R-RES/socketdir); Stop/GracefulStop close the broker; Kill waits for the management goroutines (R-WG); of the goroutine clause the necessary condition that no go-plugin goroutine can park forever: every blocking operation is non-blocking, timer-bounded, cancellation-terminated or in the reviewed table with its wake-up argument (R-BOUND). Both ClientProtocol.Close implementations close connection and broker on every path on which no close step failed (R-SIB/close).",
 		NotDecided:  "the rest of the goroutine clause: that each loop actually exits within seconds of Kill is a liveness property over runtime events; R-BOUND only excludes operations that can wait forever.",
 	})
 	register(&propDef{ID: "C19",
-		Rules:       []func(*Ctx){ruleOnce, guardOn("Client.")},
+		Rules:       []func(*Ctx){ruleKillClears, ruleOnce, guardOn("Client.")},
 		Technique:   "typestate of the launch region (once-flag tested before, stored before, never reset) via dominance queries; cache-structure check of Client(); lockset on Client fields",
 		Explanation: "Decides: all launch sites in Start are reachable only when a Client once-flag was observed unset, the flag is stored on every path before the first launch site and never reset anywhere in the module; Client() creates a protocol client only when none is cached, returns the cached one otherwise and clears the cache on failure; all of this runs under the client lock (R-GUARD). Every field whose set value short-circuits Start (address, launched) is never reset anywhere.",
 		NotDecided:  "pointer equality of returned values across calls (follows from the cache structure but is a run-time fact).",
 	})
 	register(&propDef{ID: "C20",
-		Rules:       []func(*Ctx){ruleFresh, ruleErrL3, ruleLockPair, ruleLockOrder, ruleGetOrCreate, ruleGuard, ruleClose1, ruleLockBlock, ruleNilGuard, ruleAssert},
+		Rules:       []func(*Ctx){ruleNoAppendToParam, ruleFresh, ruleErrL3, ruleLockPair, ruleLockOrder, ruleGetOrCreate, ruleGuard, ruleClose1, ruleLockBlock, ruleNilGuard, ruleAssert},
 		Technique:   "lockset analysis with inferred guards and caller summaries, field-write discipline, atomic-only id counters, close-once classification",
 		Explanation: "Decides: every access to a shared field named by the property's anchors holds the mutex inferred as its guard, in its own lock region or in all callers (reviewed happens-before exceptions for reads only); every other struct-field write outside constructors is under a mutex, inside sync.Once.Do or in the reviewed table; the id counters are touched only through sync/atomic; every close() is inside Once.Do, nil-test-and-clear under a mutex, a local single owner, or a reviewed shared close (R-CLOSE1); no blocking under a mutex; no unguarded optional-pointer dereference; no panicking assertion on plugin data. No nil-able result is dereferenced before its error was tested (R-ERR/L3); the chunk buffer sent on the stdio channel is allocated per iteration (R-FRESH); a reply channel is closed only after the reply was received (R-CLOSE1/reply).",
 		NotDecided:  "races the lockset abstraction cannot express (happens-before through channels beyond the tabled exceptions), races inside dependencies, uniqueness of ids beyond 'atomic add, no other writer'.",
